@@ -49,6 +49,11 @@ def main():
         except Exception:
             continue
         method = msg.get("method")
+        if method == "initialize" and "id" in msg:
+            out({"jsonrpc": "2.0", "id": msg["id"], "result": {
+                "protocolVersion": (msg.get("params") or {}).get("protocolVersion", "2025-06-18"),
+                "capabilities": {}, "serverInfo": {"name": "child-" + b, "version": "1"}}})
+            continue
         if b == "exit-on-request" and method == "tools/list":
             sys.exit(0)
         if "id" in msg and method == "tools/list" and b != "closes-stdout":
